@@ -75,7 +75,12 @@ def stack_cases():
                                min_size=1, max_size=3),
                       st.lists(cut, min_size=1, max_size=3)).map(lambda t: t[0] + t[1])
     flat = st.lists(st.one_of(send.map(lambda x: [x]), send.map(lambda x: [x]), cut.map(lambda x: [x]), burst), min_size=2, max_size=6)
-    return st.fixed_dictionaries({'kind': st.just('stack'), 'ops': flat.map(lambda groups: [op for grp in groups for op in grp][:10])})
+    # hop: the convergence layer of both hops ('tcpcl': n2 knows n1 only through the reverse route); over UDPCL / BTP-U the
+    # datagram network may be impaired (netfault, vlib/stack_world.py _release): a bundle that arrives twice is processed
+    # once, so every node originates at most one report per subject and set of assertions
+    return st.fixed_dictionaries({'kind': st.just('stack'), 'ops': flat.map(lambda groups: [op for grp in groups for op in grp][:10]),
+                                  'hop': st.sampled_from(['tcpcl', 'tcpcl', 'udpcl', 'btpu']),
+                                  'netfault': st.sampled_from([None, 'dup', 'dup-late', 'reverse-dup', 'rotate'])})
 
 
 def strategy(tier):
@@ -96,6 +101,9 @@ def enumerate_cases(tier):
 
 
 def pinned_cases():
+    for hop, fault in (('udpcl', 'dup'), ('udpcl', 'dup-late'), ('btpu', 'dup'), ('btpu', 'reverse-dup')):
+        yield 'stack-netfault-%s-%s' % (hop, fault), {'kind': 'stack', 'hop': hop, 'netfault': fault,
+                                                      'ops': [['send', 1, 15, True], ['send', 3, 7, False], ['send', 1, 3, True], ['send', 3, 15, True]]}
     yield 'stack-reverse-route', {'kind': 'stack', 'ops': [['send', 1, 15, True], ['cut', 1], ['send', 3, 15, True], ['send', 1, 15, True]]}
     yield 'stack-forward-onto-ending-session', {'kind': 'stack', 'ops': [['send', 1, 11, True], ['send', 3, 6, False], ['send', 1, 6, False],
                                                                           ['cut', 2], ['cut', 2], ['cut', 1]]}
@@ -155,11 +163,17 @@ def execute_stack(case):
     from vlib import stack_world as sw, bpconv, ref9171 as r, tcpcl_world as tw
     import dbus
     out = Outcome()
+    hop = case.get('hop') or 'tcpcl'
+    netfault = case.get('netfault') if hop != 'tcpcl' else None
     world = sw.StackWorld([
-        dict(routes=[('^dtn://n[23]/', 2, 'tcpcl')], rx_routes=[('^dtn://n1/', 'deliver')]),
-        dict(routes=[('^dtn://n3/', 3, 'tcpcl')], rx_routes=[('^dtn://n2/', 'deliver'), ('^dtn://n[13]/', 'forward')]),
-        dict(routes=[('^dtn://n[12]/', 2, 'tcpcl')], rx_routes=[('^dtn://n3/', 'deliver')]),
-    ])
+        dict(routes=[('^dtn://n[23]/', 2, hop)], rx_routes=[('^dtn://n1/', 'deliver')]),
+        dict(routes=([('^dtn://n1/', 1, hop)] if hop != 'tcpcl' else []) + [('^dtn://n3/', 3, hop)],
+             rx_routes=[('^dtn://n2/', 'deliver'), ('^dtn://n[13]/', 'forward')]),
+        dict(routes=[('^dtn://n[12]/', 2, hop)], rx_routes=[('^dtn://n3/', 'deliver')]),
+    ], netfault=netfault)
+    out.label('stack-hop:%s' % hop)
+    if netfault:
+        out.label('stack-netfault:%s' % netfault)
     try:
         seq = 0
         subjects = {}
@@ -189,7 +203,7 @@ def execute_stack(case):
         world.advance(1000)
         carried = {}        # (subject identity) -> set of nodes that transmitted it onward
         reports = []
-        for xfer in world.transfers():
+        for xfer in world.transfers() + world.udp_bundles() + world.btpu_bundles():
             if not xfer['complete']:
                 continue
             try:
@@ -207,6 +221,16 @@ def execute_stack(case):
             else:
                 carried.setdefault((tuple(pri['src']), pri['ts'][0], pri['ts'][1]), set()).add(xfer['src'])
         seen_reports = set()
+        report_idents = {}
+        for reporter, _hop, body, pri in reports:
+            key = (reporter, tuple(body['src']), tuple(body['ts']), tuple(flag for flag, _t in body['status']))
+            report_idents.setdefault(key, set()).add((tuple(pri['src']), pri['ts'][0], pri['ts'][1]))
+        for key, idents in sorted(report_idents.items(), key=repr):
+            if len(idents) > 1:
+                # (the same report bundle transmitted again, on a later session or by the impaired network, has one identity)
+                out.fail('report-repeated', '%s originated %d status reports asserting %s about bundle %s: every arrival after the first '
+                         'is a repeat that is processed no further (hop %s, netfault %s, ops %s)'
+                         % (key[0], len(idents), key[3], key[1:3], hop, netfault, case['ops']))
         for reporter, _hop, body, pri in reports:
             key = (reporter, tuple(body['src']), tuple(body['ts']), tuple(flag for flag, _t in body['status']))
             if key in seen_reports:
@@ -237,7 +261,9 @@ def execute_stack(case):
         for esc in world.escapes():
             out.count('stack-escape:%s@%s' % (esc.exc_type, esc.frame))
         out.label('stack')
-        out.nontrivial = bool(reports) and any(op[0] == 'cut' for op in case['ops'])
+        out.nontrivial = bool(reports) and (any(op[0] == 'cut' for op in case['ops']) or world.net_duplicated > 0)
+        if world.net_duplicated:
+            out.label('stack:datagrams-duplicated')
     finally:
         world.close()
     return out
